@@ -23,9 +23,18 @@ func TestMain(m *testing.M) {
 
 // Step is one op of the body-editing history. Kinds beyond the shared ops:
 // rmhandle (S[0]: live|removed|foreign|nil, I[0]: selector), addelem (I[0]: 0 paragraph, 1 table).
+//
+// Mode (parallel to Ops, absent = 0) says how the text argument of an append constructor is passed:
+// 0 the drawn text followed by a per-op marker "#<i>" (never empty), 1 the drawn text as it is
+// (may be empty or blank), 2 the empty string.
 type Case struct {
-	Ops []ops.Op `json:"ops"`
+	Ops  []ops.Op `json:"ops"`
+	Mode []int    `json:"mode,omitempty"`
 }
+
+// textKinds are the append constructors whose first string argument is the text of the new element.
+var textKinds = map[string]bool{"para": true, "fpara": true, "heading": true, "headingbm": true, "headingbm2": true,
+	"listitem": true, "bullet": true, "numbered": true, "footnote": true, "endnote": true}
 
 var appendKinds = []string{"para", "para", "fpara", "heading", "headingbm", "headingbm2", "pagebreak", "table", "image", "imagefile", "listitem", "bullet", "numbered",
 	"footnote", "endnote", "math", "mathlatex", "toc", "addelem"}
@@ -35,29 +44,48 @@ var otherKinds = []string{"align", "addtext", "pstyle", "save", "celltext", "pro
 
 var cfg = &ops.Config{Classes: gen.Expressible, Weights: ops.DefaultWeights}
 
+type step struct {
+	Op   ops.Op
+	Mode int
+}
+
+// genStep draws one call. Steps are drawn as elements of a rapid slice so that the shrinker can delete
+// any of them (not only the trailing ones).
+func genStep(t *rapid.T) step {
+	var k string
+	switch rapid.IntRange(0, 9).Draw(t, "grp") {
+	case 0, 1, 2, 3, 4:
+		k = rapid.SampledFrom(appendKinds).Draw(t, "ak")
+	case 5, 6, 7:
+		k = rapid.SampledFrom(removeKinds).Draw(t, "rk")
+	case 8:
+		k = rapid.SampledFrom(sectionKinds).Draw(t, "sk")
+	default:
+		k = rapid.SampledFrom(otherKinds).Draw(t, "ok")
+	}
+	mode := 0
+	if textKinds[k] {
+		mode = rapid.SampledFrom([]int{0, 0, 0, 1, 2}).Draw(t, "textmode")
+	}
+	switch k {
+	case "rmhandle":
+		return step{ops.Op{K: k, S: []string{rapid.SampledFrom([]string{"live", "live", "live", "removed", "foreign", "nil"}).Draw(t, "hk")}, I: []int{rapid.IntRange(0, 60).Draw(t, "sel")}}, mode}
+	case "addelem":
+		return step{ops.Op{K: k, I: []int{rapid.IntRange(0, 1).Draw(t, "ek")}}, mode}
+	}
+	return step{cfg.OpOf(t, k), mode}
+}
+
 func genCase(t *rapid.T) Case {
-	n := rapid.IntRange(1, kit.Scale(40, 80)).Draw(t, "n")
+	// rapid's slices are short on average; a drawn lower bound keeps long histories as likely as short ones
+	// (the shrinker lowers the bound first and then deletes steps)
+	max := kit.Scale(40, 80)
+	min := rapid.IntRange(1, max*3/4).Draw(t, "atleast")
+	steps := rapid.SliceOfN(rapid.Custom(genStep), min, max).Draw(t, "steps")
 	var c Case
-	for i := 0; i < n; i++ {
-		var k string
-		switch rapid.IntRange(0, 9).Draw(t, "grp") {
-		case 0, 1, 2, 3, 4:
-			k = rapid.SampledFrom(appendKinds).Draw(t, "ak")
-		case 5, 6, 7:
-			k = rapid.SampledFrom(removeKinds).Draw(t, "rk")
-		case 8:
-			k = rapid.SampledFrom(sectionKinds).Draw(t, "sk")
-		default:
-			k = rapid.SampledFrom(otherKinds).Draw(t, "ok")
-		}
-		switch k {
-		case "rmhandle":
-			c.Ops = append(c.Ops, ops.Op{K: k, S: []string{rapid.SampledFrom([]string{"live", "live", "live", "removed", "foreign", "nil"}).Draw(t, "hk")}, I: []int{rapid.IntRange(0, 60).Draw(t, "sel")}})
-		case "addelem":
-			c.Ops = append(c.Ops, ops.Op{K: k, I: []int{rapid.IntRange(0, 1).Draw(t, "ek")}})
-		default:
-			c.Ops = append(c.Ops, cfg.OpOf(t, k))
-		}
+	for _, s := range steps {
+		c.Ops = append(c.Ops, s.Op)
+		c.Mode = append(c.Mode, s.Mode)
 	}
 	return c
 }
@@ -252,11 +280,44 @@ func run(c Case) *kit.Result {
 	}
 	appends, kindsSeen, okRemovals, failedRemovals, sectBeforeAppend, sectMiddle := 0, map[string]bool{}, 0, 0, false, false
 	var shape []string
+	var fp []uint64 // content fingerprints of the model's elements before the call (nil = to be taken)
 	for i, op := range c.Ops {
 		before := append([]interface{}(nil), doc.Body.Elements...)
 		if !same(before, model) {
 			res.Fail("C08.L1", "before op %d the body is not the model", i)
 			return res
+		}
+		if fp == nil { // the previous call was allowed to change element content (or there was none)
+			fp = fingers(model)
+		}
+		// undisturbed reports the first element of the model (other than skip / section settings when
+		// exceptSect) whose content differs from what it was before the call (now = the list after the call, in which element skip is gone).
+		var fpNow []uint64 // fingerprints of the list after the call, filled by undisturbed
+		undisturbed := func(now []interface{}, skip int, exceptSect bool) (int, bool) {
+			fpNow = make([]uint64, 0, len(now))
+			j := 0
+			for k := range model {
+				if k == skip {
+					continue
+				}
+				if j >= len(now) {
+					break
+				}
+				f := finger(now[j])
+				if _, isSect := model[k].(*document.SectionProperties); !(exceptSect && isSect) && f != fp[k] {
+					return k, false
+				}
+				fpNow = append(fpNow, f)
+				j++
+			}
+			for ; j < len(now); j++ {
+				fpNow = append(fpNow, finger(now[j]))
+			}
+			return -1, true
+		}
+		mode := 0
+		if i < len(c.Mode) {
+			mode = c.Mode[i]
 		}
 		grp := "other"
 		var ret bool
@@ -351,8 +412,27 @@ func run(c Case) *kit.Result {
 				}
 			}
 			// make paragraph texts distinguishable in the saved part
+			// (mode 0); modes 1 and 2 pass the drawn text itself / the empty string to the text constructors
 			if grp == "append" && len(op.S) > 0 && op.K != "math" && op.K != "mathlatex" && op.K != "toc" {
-				op.S = append([]string{fmt.Sprintf("%s#%d", op.S[0], i)}, op.S[1:]...)
+				switch {
+				case mode == 1 && textKinds[op.K]:
+					res.Label("raw-text-append")
+				case mode == 2 && textKinds[op.K]:
+					op.S = append([]string{""}, op.S[1:]...)
+				default:
+					op.S = append([]string{fmt.Sprintf("%s#%d", op.S[0], i)}, op.S[1:]...)
+				}
+				if textKinds[op.K] && op.S[0] == "" {
+					res.Label("empty-text-append")
+					if op.K == "footnote" || op.K == "endnote" {
+						res.Label("empty-text-note")
+					}
+					if len(model) > 0 {
+						if _, ok := model[len(model)-1].(*document.Paragraph); ok {
+							res.Label("empty-text-append-after-paragraph")
+						}
+					}
+				}
 			}
 			var err error
 			pan, st = kit.Try(func() { err = x.Do(op) })
@@ -379,6 +459,10 @@ func run(c Case) *kit.Result {
 					res.Fail("C08.L3", "op %d %s reported success but did not remove exactly element %d (len %d -> %d)", i, op.K, expectRemove, len(model), len(after))
 					return res
 				}
+				if k, ok := undisturbed(after, expectRemove, false); !ok {
+					res.Fail("C08.L3", "op %d %s removed element %d and also changed the content of element %d (%s)", i, op.K, expectRemove, k, describe(model[k]))
+					return res
+				}
 				if p, ok := model[expectRemove].(*document.Paragraph); ok {
 					removed = append(removed, p)
 				}
@@ -396,6 +480,10 @@ func run(c Case) *kit.Result {
 					res.Fail("C08.L3", "op %d %s reported failure but changed the body (len %d -> %d)", i, op.K, len(model), len(after))
 					return res
 				}
+				if k, ok := undisturbed(after, -1, false); !ok {
+					res.Fail("C08.L3", "op %d %s reported failure but changed the content of element %d (%s)", i, op.K, k, describe(model[k]))
+					return res
+				}
 				failedRemovals++
 			}
 		case strings.HasPrefix(grp, "append"):
@@ -403,6 +491,13 @@ func run(c Case) *kit.Result {
 			if len(after) < len(model) || !same(after[:len(model)], model) {
 				res.Fail("C08.L1", "op %d %s disturbed the existing elements (len %d -> %d)", i, op.K, len(model), len(after))
 				return res
+			}
+			// GenerateTOC is not one of the constructors the statement lists; what it may do to the headings it indexes is C15's
+			if op.K != "toc" {
+				if k, ok := undisturbed(after, -1, false); !ok {
+					res.Fail("C08.L1", "op %d %s changed the content of element %d, which was already there (it now reads %q)", i, op.K, k, describe(model[k]))
+					return res
+				}
 			}
 			grown := after[len(model):]
 			if grp == "append" && len(grown) == 0 {
@@ -439,6 +534,10 @@ func run(c Case) *kit.Result {
 			res.Eval("C08.L1")
 			if len(after) < len(model) || !same(after[:len(model)], model) {
 				res.Fail("C08.L1", "op %d %s (page/header call) disturbed the existing elements", i, op.K)
+				return res
+			}
+			if k, ok := undisturbed(after, -1, true); !ok {
+				res.Fail("C08.L1", "op %d %s (page/header call) changed the content of element %d (%s)", i, op.K, k, describe(model[k]))
 				return res
 			}
 			grown := after[len(model):]
@@ -495,6 +594,10 @@ func run(c Case) *kit.Result {
 		if op.K == "save" {
 			checkSave(res, doc, model, fmt.Sprintf("save at op %d", i))
 		}
+		fp = nil
+		if len(fpNow) == len(model) && (grp == "remove" || strings.HasPrefix(grp, "append") || strings.HasPrefix(grp, "section")) {
+			fp = fpNow // judged calls: the list after the call has just been fingerprinted
+		}
 	}
 	checkSave(res, doc, model, "final save")
 	if sectMiddle {
@@ -511,10 +614,12 @@ func run(c Case) *kit.Result {
 func TestC08(t *testing.T) {
 	kit.Main(t, kit.Spec[Case]{
 		ID: "C08", Level: "exploration",
-		Rule: "history of 1-40 (thorough 1-80) body-editing calls: every append constructor, removals by handle (live, already removed, foreign, nil) / paragraph index / element index with selectors covering -1, every valid index, n, n+1, and page-setting/header/footer calls that create section settings at arbitrary points; reference model = slice of element identities compared pointer-for-pointer after every call, plus the child order of w:body at drawn saves and at the end. non-trivial = >=1 successful removal after >=4 appends of >=3 kinds with section settings created before the last append; distinct = distinct sequence of (op kind, outcome group)",
+		Rule: "history of 1-40 (thorough 1-80) body-editing calls: every append constructor (text-taking ones with the drawn text plus a per-call marker, the drawn text as it is, or the empty string), removals by handle (live, already removed, foreign, nil) / paragraph index / element index with selectors covering -1, every valid index, n, n+1, and page-setting/header/footer calls that create section settings at arbitrary points; reference model = slice of element identities compared pointer-for-pointer after every call, a content fingerprint of every element already there compared across every append, removal and page/header call, plus the child order of w:body at drawn saves and at the end. non-trivial = >=1 successful removal after >=4 appends of >=3 kinds with section settings created before the last append; distinct = distinct sequence of (op kind, outcome group)",
 		Gen:  genCase, Run: run, Findings: findings,
-		MustSee: map[string]float64{"rm-out-of-range": 0.3, "rmhandle:removed": 0.1, "rmhandle:foreign": 0.1, "sectPr-in-the-middle": 0.2, "multi-element-append": 0.2, "failed-removal": 0.3},
+		MustSee: map[string]float64{"rm-out-of-range": 0.3, "rmhandle:removed": 0.1, "rmhandle:foreign": 0.1, "sectPr-in-the-middle": 0.2, "multi-element-append": 0.2, "failed-removal": 0.3,
+			"empty-text-append": 0.3, "empty-text-append-after-paragraph": 0.2, "empty-text-note": 0.05, "raw-text-append": 0.3},
 		Assumptions: []string{"AutoGenerateTOC (prepends by design) and UpdateTOC are not append operations and are judged under C15",
-			"paragraph texts carry a per-op marker so that the saved children can be matched to model elements; text is drawn from XML-expressible classes"},
+			"3 of 5 text-taking appends carry a per-op marker so that the saved children can be matched to model elements, the others pass the drawn text unchanged or the empty string; text is drawn from XML-expressible classes",
+			"GenerateTOC is not among the constructors the statement lists: the content-fingerprint clause does not apply to it (the list clauses do)"},
 	})
 }
